@@ -14,6 +14,23 @@ EXCLUDE_DIRS = {'tests', 'docs', 'data', '__pycache__'}
 EXCLUDE_FILES = {'conftest.py'}
 
 
+def _canonical_idioms(tree):
+    """Spelling-only normalisations applied to every module before rules see it (positions kept):
+    redundant `pass` statements are dropped; np.argsort(x, ...) becomes x.argsort(...)."""
+    for n in ast.walk(tree):
+        for fld in ('body', 'orelse', 'finalbody'):
+            v = getattr(n, fld, None)
+            if isinstance(v, list) and len(v) > 1 and all(isinstance(x, ast.stmt) for x in v):
+                kept = [x for x in v if not isinstance(x, ast.Pass)]
+                if kept and len(kept) != len(v):
+                    setattr(n, fld, kept)
+        if isinstance(n, ast.Call) and isinstance(n.func, ast.Attribute) and n.func.attr == 'argsort' \
+                and isinstance(n.func.value, ast.Name) and n.func.value.id in ('np', 'numpy') and len(n.args) >= 1:
+            recv = n.args[0]
+            n.func = ast.copy_location(ast.Attribute(value=recv, attr='argsort', ctx=ast.Load()), n.func)
+            n.args = n.args[1:]
+
+
 class Func:
     __slots__ = ('module', 'qualname', 'name', 'node', 'cls', 'roles')
 
@@ -62,6 +79,7 @@ class Module:
             self.tree = ast.parse(source, filename=rel)
         except SyntaxError as e:
             raise AnalysisError('%s does not parse: %s' % (rel, e))
+        _canonical_idioms(self.tree)
         self.funcs = {}
         self.classes = {}
         self.imports = {}      # local name -> (module name, attribute or None)
@@ -80,9 +98,6 @@ class Module:
                     q = prefix + st.name
                     f = Func(self, q, st, cls)
                     self.funcs[q] = f
-                    for n in ast.walk(st):
-                        if not hasattr(n, '_func') or n is st:
-                            pass
                     # nested defs are indexed with a dotted prefix but stay opaque
                     visit(st.body, q + '.<locals>.', None)
                 elif isinstance(st, ast.ClassDef):
@@ -130,6 +145,11 @@ class Module:
         return '.'.join(parts)
 
 
+# parsed modules of unchanged files are shared between Repo instances of one process (they are never mutated: role recovery
+# replaces Func.node only for functions that differ from the reference, and then the module is evicted from the cache)
+_MODULE_CACHE = {}
+
+
 class Repo:
     def __init__(self, root='/repo', overlay=None):
         self.root = root
@@ -153,11 +173,17 @@ class Repo:
                 rels.append(rel)
         for rel in rels:
             if rel in self.overlay:
-                src = self.overlay[rel]
+                m = Module(rel, self.overlay[rel])
             else:
-                with open(os.path.join(self.root, rel), encoding='utf-8') as fh:
-                    src = fh.read()
-            m = Module(rel, src)
+                path = os.path.join(self.root, rel)
+                st = os.stat(path)
+                key = (path, st.st_mtime_ns, st.st_size)
+                m = _MODULE_CACHE.get(key)
+                if m is None:
+                    with open(path, encoding='utf-8') as fh:
+                        m = Module(rel, fh.read())
+                    m._cache_key = key
+                    _MODULE_CACHE[key] = m
             self.modules[rel] = m
             self.by_name[m.modname] = m
         from .roles import apply_tables
